@@ -73,9 +73,7 @@ theorem valid_iff (text : List Str) : checkValidity text = .ok () ↔
   unfold checkValidity
   match text with
   | [] => simp
-  | [t0] =>
-    simp only [List.cons.injEq, List.nil_eq, reduceCtorEq, and_false, false_and, exists_false, iff_false]
-    split <;> simp
+  | [t0] => simp
   | t0 :: t1 :: rest =>
     by_cases h0 : startsWith (lstrip t0) ['1', ' '] = true
     · by_cases h1 : startsWith (lstrip t1) ['2', ' '] = true
@@ -92,6 +90,14 @@ theorem valid_iff (text : List Str) : checkValidity text = .ok () ↔
       constructor
       · intro h; cases h
       · rintro ⟨_, _, _, heq, h, _, _⟩; cases heq; exact absurd h h0
+
+/-- a text with fewer than two lines (a missing or empty second line) is a parse error -/
+theorem too_few_lines_rejected (text : List Str) (h : text.length < 2) :
+    checkValidity text = .error (.lineCount text.length) := by
+  match text with
+  | [] => rfl
+  | [_] => rfl
+  | _ :: _ :: _ => simp only [List.length_cons] at h; omega
 
 /-- wrong **length**: a text in which some line, once stripped, is not 69 characters long is rejected -/
 theorem length_checked (text : List Str) (l : Str) (hl : l ∈ text) (hlen : (strip l).length ≠ 69) :
@@ -225,29 +231,21 @@ theorem epoch_roundtrip (y day8 : Nat) (h1 : 100000000 ≤ day8)
 
 example : (100000000 : Nat) ≤ 26451782528 ∧ 26451782528 < (if isLeap 2008 then 367 else 366) * 100000000 := by decide
 
-/-! ## Clause 4 — a multi-TLE text yields exactly its valid entries -/
+/-! ## Clause 4 — a multi-TLE text yields exactly its valid entries
+
+(`from_string_yields_valid_entries` was `…_partial` — entries whose lines kept their numbers only — until the
+repair 7d01f12 of `Tle.from_string`; the case of a lost line number is now true of the code and proved.) -/
 
 /-- lines that `from_string` skips: blank or starting with the comment mark -/
 def skipped (l : Str) : Bool := (strip l).isEmpty || startsWith l ['#']
 
-/-- an entry of a multi-TLE text: optional name line, a line starting with `1 `, a line starting with `2 ` -/
+/-- an entry of a multi-TLE text: optional name line and two element lines (possibly corrupted) -/
 structure Block where
   name : Option Str
   l1 : Str
   l2 : Str
 
 def Block.lines (b : Block) : List Str := b.name.toList ++ [b.l1, b.l2]
-
-/-- the two element lines kept their line numbers (whatever else happened to them), no line is blank or a comment,
-and the name line (if any) is not mistaken for an element line -/
-structure Block.Framed (b : Block) : Prop where
-  h1 : startsWith b.l1 ['1', ' '] = true
-  h2 : startsWith b.l2 ['2', ' '] = true
-  s1 : skipped b.l1 = false
-  s2 : skipped b.l2 = false
-  hn : ∀ n, b.name = some n → skipped n = false ∧ startsWith n ['1', ' '] = false ∧ startsWith n ['2', ' '] = false
-  /-- constructing the entry fails, if it fails, with a `ValueError` (what `from_string` catches) -/
-  hv : ∀ e, parseTle b.lines = .error e → isValueError e = true
 
 theorem startsWith_2_not_1 (l : Str) (h : startsWith l ['2', ' '] = true) : startsWith l ['1', ' '] = false := by
   cases l with
@@ -258,47 +256,303 @@ theorem startsWith_2_not_1 (l : Str) (h : startsWith l ['2', ' '] = true) : star
     subst this
     simp [startsWith, List.isPrefixOf]
 
-theorem fs_block (st : FsState) (b : Block) (hb : b.Framed) (hc : st.cache = []) (ha : st.abort = none) :
-    let st' := b.lines.foldl fsStep st
-    st'.cache = [] ∧ st'.abort = none ∧ st'.out = st.out ++ ((parseTle b.lines).toOption).toList := by
-  obtain ⟨h1, h2, s1, s2, hn, hv⟩ := hb
-  have h21 := startsWith_2_not_1 _ h2
-  unfold skipped at s1 s2
+/-! ### every failure of the validity check is a `ValueError` (what `from_string` catches) -/
+
+theorem checkLine_error {i : Nat} {l : Str} {e : Err} (h : checkLine i l = .error e) : isValueError e = true := by
+  unfold checkLine at h
+  simp only at h
+  split at h
+  · cases h; rfl
+  · split at h
+    · cases h; rfl
+    · split at h
+      · cases h
+      · cases h; rfl
+
+theorem checkLines_error {i : Nat} {ls : List Str} {e : Err} (h : checkLines i ls = .error e) : isValueError e = true := by
+  induction ls generalizing i with
+  | nil => simp [checkLines] at h
+  | cons l ls ih =>
+    simp only [checkLines] at h
+    cases hl : checkLine i l with
+    | error e' =>
+      rw [hl] at h
+      simp [bind, Except.bind] at h
+      subst h
+      exact checkLine_error hl
+    | ok u =>
+      rw [hl] at h
+      simp [bind, Except.bind] at h
+      exact ih h
+
+theorem checkValidity_error {t : List Str} {e : Err} (h : checkValidity t = .error e) : isValueError e = true := by
+  unfold checkValidity at h
+  split at h
+  · split at h
+    · cases h; rfl
+    · split at h
+      · cases h; rfl
+      · exact checkLines_error h
+  · cases h; rfl
+
+theorem parseBody_invalid {t : List Str} (h : checkValidity t ≠ .ok ()) :
+    ∃ e, parseBody t = .error e ∧ isValueError e = true := by
+  cases hv : checkValidity t with
+  | ok u => exact absurd hv h
+  | error e =>
+    refine ⟨e, ?_, checkValidity_error hv⟩
+    unfold parseBody
+    rw [hv]
+    rfl
+
+theorem bad_pair {a b : Str} (h : ¬ LineOk a ∨ ¬ LineOk b) : checkValidity [a, b] ≠ .ok () := by
+  intro hv
+  obtain ⟨_, _, _, _, _, _, hall⟩ := (valid_iff _).1 hv
+  rcases h with h | h
+  · exact h (hall a (by simp))
+  · exact h (hall b (by simp))
+
+def unname (p : Parsed) : Parsed := { p with name := [] }
+
+theorem unname_rename (p : Parsed) (n : Str) : unname { p with name := n } = unname p := rfl
+
+/-! ### one step of the generator -/
+
+theorem fs_other (st : FsState) (l : Str) (ha : st.abort = none) (hs : skipped l = false)
+    (h1 : startsWith l ['1', ' '] = false) (h2 : startsWith l ['2', ' '] = false) :
+    fsStep st l = { st with cache := [l] } := by
+  unfold skipped at hs
+  unfold fsStep; simp [ha, hs, h1, h2]
+
+theorem fs_one (st : FsState) (l : Str) (ha : st.abort = none) (hs : skipped l = false)
+    (h1 : startsWith l ['1', ' '] = true) :
+    fsStep st l = { st with cache := (st.cache.getLast?.toList.filter (fun x => !startsWith x ['1', ' '])) ++ [l] } := by
+  unfold skipped at hs
+  unfold fsStep; simp [ha, hs, h1]
+
+theorem fs_two_ok (st : FsState) (l : Str) (p : Parsed) (ha : st.abort = none) (hs : skipped l = false)
+    (h2 : startsWith l ['2', ' '] = true) (hp : parseTle (st.cache ++ [l]) = .ok p) :
+    fsStep st l = { st with cache := [], out := st.out ++ [p] } := by
+  unfold skipped at hs
+  unfold fsStep; simp [ha, hs, startsWith_2_not_1 l h2, h2, hp]
+
+theorem fs_two_err (st : FsState) (l : Str) (e : Err) (ha : st.abort = none) (hs : skipped l = false)
+    (h2 : startsWith l ['2', ' '] = true) (hp : parseTle (st.cache ++ [l]) = .error e) (he : isValueError e = true) :
+    fsStep st l = { st with cache := [] } := by
+  unfold skipped at hs
+  unfold fsStep; simp [ha, hs, startsWith_2_not_1 l h2, h2, hp, he]
+
+
+/-! ### one entry -/
+
+/-- between entries the cache is empty, or holds one line that fails the per-line check (the remains of an entry
+whose second line lost its number) -/
+def Inv (st : FsState) : Prop := st.abort = none ∧ (st.cache = [] ∨ ∃ x, st.cache = [x] ∧ ¬ LineOk x)
+
+def Block.framed (b : Block) : Bool := startsWith b.l1 ['1', ' '] && startsWith b.l2 ['2', ' ']
+
+/-- what the entry contributes: the `Tle` of its two element lines when both kept their line numbers and the pair is
+accepted (name aside) -/
+def Block.yield (b : Block) : Option Parsed :=
+  if b.framed then ((parseBody [b.l1, b.l2]).toOption).map unname else none
+
+/-- the entries the property quantifies over: no blank or comment line; the name line (if any) does not look like an
+element line; at most ONE of the two element lines lost its `1 ` / `2 ` prefix, and that line then fails the per-line
+check (true of every single-digit or length corruption, see `digit_corruption_rejected`); constructing an entry from
+two properly numbered lines fails, if it fails, with a `ValueError`. -/
+structure Block.Shaped (b : Block) : Prop where
+  s1 : skipped b.l1 = false
+  s2 : skipped b.l2 = false
+  hn : ∀ n, b.name = some n → skipped n = false ∧ startsWith n ['1', ' '] = false ∧ startsWith n ['2', ' '] = false
+  shape : (startsWith b.l1 ['1', ' '] = true ∧ startsWith b.l2 ['2', ' '] = true) ∨
+          (startsWith b.l1 ['1', ' '] = false ∧ ¬ LineOk b.l1 ∧ startsWith b.l2 ['2', ' '] = true) ∨
+          (startsWith b.l1 ['1', ' '] = true ∧ startsWith b.l2 ['2', ' '] = false ∧ ¬ LineOk b.l2)
+  hv : b.framed = true → ∀ e, parseBody [b.l1, b.l2] = .error e → isValueError e = true
+
+theorem fs_pair (st : FsState) (b : Block) (hb : b.Shaped) (ha : st.abort = none)
+    (hc : st.cache = [] ∨ ∃ y, st.cache = [y]) :
+    Inv ([b.l1, b.l2].foldl fsStep st) ∧
+    ([b.l1, b.l2].foldl fsStep st).out.map unname = st.out.map unname ++ b.yield.toList := by
+  obtain ⟨s1, s2, _, shape, hv⟩ := hb
+  simp only [List.foldl_cons, List.foldl_nil]
+  rcases shape with ⟨h1, h2⟩ | ⟨h1, bad1, h2⟩ | ⟨h1, h2, bad2⟩
+  · -- both lines numbered: the pair is tried with at most one line (a name) in front of it
+    have hf : b.framed = true := by simp [Block.framed, h1, h2]
+    have hy : b.yield = ((parseBody [b.l1, b.l2]).toOption).map unname := by simp [Block.yield, hf]
+    have e1 := fs_one st b.l1 ha s1 h1
+    generalize fsStep st b.l1 = st1 at e1 ⊢
+    have a1 : st1.abort = none := by rw [e1]; exact ha
+    have o1 : st1.out = st.out := by rw [e1]
+    have hcache : st1.cache = [b.l1] ∨ ∃ y, st1.cache = [y, b.l1] := by
+      rw [e1]
+      rcases hc with hc | ⟨y, hc⟩
+      · left; simp [hc]
+      · by_cases hy1 : startsWith y ['1', ' '] = true
+        · left; simp [hc, hy1]
+        · right; exact ⟨y, by simp [hc, hy1]⟩
+    cases hp : parseBody [b.l1, b.l2] with
+    | error e =>
+      have he := hv hf e hp
+      have hatt : parseTle (st1.cache ++ [b.l2]) = .error e := by
+        rcases hcache with h | ⟨y, h⟩
+        · rw [h]; exact hp
+        · rw [h]; show (parseBody [b.l1, b.l2]).map _ = _; rw [hp]; rfl
+      rw [fs_two_err st1 b.l2 e a1 s2 h2 hatt he]
+      refine ⟨⟨a1, Or.inl rfl⟩, ?_⟩
+      simp [hy, hp, Except.toOption, o1]
+    | ok p =>
+      have hatt : ∃ p', parseTle (st1.cache ++ [b.l2]) = .ok p' ∧ unname p' = unname p := by
+        rcases hcache with h | ⟨y, h⟩
+        · exact ⟨p, by rw [h]; exact hp, rfl⟩
+        · refine ⟨{ p with name := nameOf y }, ?_, unname_rename p _⟩
+          rw [h]; show (parseBody [b.l1, b.l2]).map _ = _; rw [hp]; rfl
+      obtain ⟨p', hatt, hun⟩ := hatt
+      rw [fs_two_ok st1 b.l2 p' a1 s2 h2 hatt]
+      refine ⟨⟨a1, Or.inl rfl⟩, ?_⟩
+      simp [hy, hp, Except.toOption, hun, o1]
+  · -- line 1 lost its number: whatever is tried contains the bad line among its element lines
+    have hf : b.framed = false := by simp [Block.framed, h1]
+    have hy : b.yield = none := by simp [Block.yield, hf]
+    by_cases h12 : startsWith b.l1 ['2', ' '] = true
+    · -- it is taken for a line 2
+      have hfail : ∃ e, parseTle (st.cache ++ [b.l1]) = .error e ∧ isValueError e = true := by
+        rcases hc with hc | ⟨y, hc⟩
+        · rw [hc]; exact ⟨.lineCount 1, rfl, rfl⟩
+        · rw [hc]; exact parseBody_invalid (bad_pair (Or.inr bad1))
+      obtain ⟨e, he1, he2⟩ := hfail
+      have e1 := fs_two_err st b.l1 e ha s1 h12 he1 he2
+      generalize fsStep st b.l1 = st1 at e1 ⊢
+      have a1 : st1.abort = none := by rw [e1]; exact ha
+      have o1 : st1.out = st.out := by rw [e1]
+      have c1 : st1.cache = [] := by rw [e1]
+      have : parseTle (st1.cache ++ [b.l2]) = .error (.lineCount 1) := by rw [c1]; rfl
+      rw [fs_two_err st1 b.l2 _ a1 s2 h2 this rfl]
+      exact ⟨⟨a1, Or.inl rfl⟩, by simp [hy, o1]⟩
+    · -- it is taken for a name line
+      have h12' : startsWith b.l1 ['2', ' '] = false := by simpa using h12
+      have e1 := fs_other st b.l1 ha s1 h1 h12'
+      generalize fsStep st b.l1 = st1 at e1 ⊢
+      have a1 : st1.abort = none := by rw [e1]; exact ha
+      have o1 : st1.out = st.out := by rw [e1]
+      have c1 : st1.cache = [b.l1] := by rw [e1]
+      obtain ⟨e, he1, he2⟩ := parseBody_invalid (bad_pair (a := b.l1) (b := b.l2) (Or.inl bad1))
+      have hatt : parseTle (st1.cache ++ [b.l2]) = .error e := by rw [c1]; exact he1
+      rw [fs_two_err st1 b.l2 e a1 s2 h2 hatt he2]
+      exact ⟨⟨a1, Or.inl rfl⟩, by simp [hy, o1]⟩
+  · -- line 2 lost its number: it stays alone in the cache
+    have hf : b.framed = false := by simp [Block.framed, h2]
+    have hy : b.yield = none := by simp [Block.yield, hf]
+    have e1 := fs_one st b.l1 ha s1 h1
+    generalize fsStep st b.l1 = st1 at e1 ⊢
+    have a1 : st1.abort = none := by rw [e1]; exact ha
+    have o1 : st1.out = st.out := by rw [e1]
+    have hlast : st1.cache.getLast? = some b.l1 := by rw [e1]; simp
+    by_cases h21 : startsWith b.l2 ['1', ' '] = true
+    · rw [fs_one st1 b.l2 a1 s2 h21]
+      refine ⟨⟨a1, Or.inr ⟨b.l2, ?_, bad2⟩⟩, by simp [hy, o1]⟩
+      simp [hlast, h1]
+    · have h21' : startsWith b.l2 ['1', ' '] = false := by simpa using h21
+      rw [fs_other st1 b.l2 a1 s2 h21' h2]
+      exact ⟨⟨a1, Or.inr ⟨b.l2, rfl, bad2⟩⟩, by simp [hy, o1]⟩
+
+theorem fs_block_full (st : FsState) (b : Block) (hb : b.Shaped) (hi : Inv st) :
+    Inv (b.lines.foldl fsStep st) ∧
+    (b.lines.foldl fsStep st).out.map unname = st.out.map unname ++ b.yield.toList := by
+  obtain ⟨ha, hc⟩ := hi
+  have hc' : st.cache = [] ∨ ∃ y, st.cache = [y] := by
+    rcases hc with h | ⟨x, h, _⟩
+    · exact Or.inl h
+    · exact Or.inr ⟨x, h⟩
   cases hname : b.name with
   | none =>
-    have hl : b.lines = [b.l1, b.l2] := by simp [Block.lines, hname]
-    rw [hl] at hv ⊢
+    have : b.lines = [b.l1, b.l2] := by simp [Block.lines, hname]
+    rw [this]
+    exact fs_pair st b hb ha hc'
+  | some n =>
+    obtain ⟨sn, n1, n2⟩ := hb.hn n hname
+    have : b.lines = n :: [b.l1, b.l2] := by simp [Block.lines, hname]
+    rw [this, List.foldl_cons, fs_other st n ha sn n1 n2]
+    exact fs_pair { st with cache := [n] } b hb ha (Or.inr ⟨n, rfl⟩)
+
+/-- **a multi-TLE text yields exactly its valid entries**: for EVERY text made of entries (with or without name
+line, in any mix) each of which is intact or corrupted — anywhere in its digits, in its length, or in ONE of its two
+line numbers — `from_string` yields, in order and name aside, exactly the `Tle` of every entry whose two lines kept
+their numbers and are accepted by `Tle(...)`; nothing else is yielded, no valid entry is lost after a corrupted one,
+and the generator does not abort. -/
+theorem from_string_yields_valid_entries (blocks : List Block) (hb : ∀ b ∈ blocks, b.Shaped) :
+    (fromString (blocks.flatMap Block.lines)).out.map unname = blocks.filterMap Block.yield ∧
+    (fromString (blocks.flatMap Block.lines)).abort = none := by
+  unfold fromString
+  have key : ∀ (bs : List Block) (st : FsState), (∀ b ∈ bs, b.Shaped) → Inv st →
+      ((bs.flatMap Block.lines).foldl fsStep st).out.map unname = st.out.map unname ++ bs.filterMap Block.yield ∧
+      ((bs.flatMap Block.lines).foldl fsStep st).abort = none := by
+    intro bs
+    induction bs with
+    | nil => intro st _ hi; simp [hi.1]
+    | cons b bs ih =>
+      intro st hall hi
+      obtain ⟨hi', ho⟩ := fs_block_full st b (hall b (by simp)) hi
+      simp only [List.flatMap_cons, List.foldl_append]
+      obtain ⟨r1, r2⟩ := ih (b.lines.foldl fsStep st) (fun x hx => hall x (by simp [hx])) hi'
+      refine ⟨?_, r2⟩
+      rw [r1, ho, List.filterMap_cons]
+      cases b.yield <;> simp
+  have := key blocks {} hb ⟨rfl, Or.inl rfl⟩
+  simpa using this
+
+
+/-- an entry whose two element lines kept their numbers (they may be corrupted anywhere else) -/
+structure Block.Framed (b : Block) : Prop where
+  h1 : startsWith b.l1 ['1', ' '] = true
+  h2 : startsWith b.l2 ['2', ' '] = true
+  s1 : skipped b.l1 = false
+  s2 : skipped b.l2 = false
+  hn : ∀ n, b.name = some n → skipped n = false ∧ startsWith n ['1', ' '] = false ∧ startsWith n ['2', ' '] = false
+  hv : ∀ e, parseTle b.lines = .error e → isValueError e = true
+
+theorem fs_block_framed (st : FsState) (b : Block) (hb : b.Framed) (hc : st.cache = []) (ha : st.abort = none) :
+    (b.lines.foldl fsStep st).cache = [] ∧ (b.lines.foldl fsStep st).abort = none ∧
+    (b.lines.foldl fsStep st).out = st.out ++ ((parseTle b.lines).toOption).toList := by
+  obtain ⟨h1, h2, s1, s2, hn, hv⟩ := hb
+  have tail : ∀ (st0 : FsState) (pre : List Str), st0.abort = none → st0.out = st.out → b.lines = pre ++ [b.l1, b.l2] →
+      st0.cache = pre → (∀ x, pre.getLast? = some x → startsWith x ['1', ' '] = false) → pre.length ≤ 1 →
+      ([b.l1, b.l2].foldl fsStep st0).cache = [] ∧ ([b.l1, b.l2].foldl fsStep st0).abort = none ∧
+      ([b.l1, b.l2].foldl fsStep st0).out = st.out ++ ((parseTle b.lines).toOption).toList := by
+    intro st0 pre a0 o0 hl c0 hpre hlen
     simp only [List.foldl_cons, List.foldl_nil]
-    have e1 : fsStep st b.l1 = { st with cache := [b.l1] } := by
-      unfold fsStep; simp [ha, s1, h1, hc]
-    rw [e1]
-    unfold fsStep
-    simp only [ha, Option.isSome_none, Bool.false_eq_true, if_false, s2, h21, h2, if_true, List.cons_append, List.nil_append]
-    cases hp : parseTle [b.l1, b.l2] with
-    | ok p => simp [Except.toOption]
-    | error e => simp [hv e hp, Except.toOption]
+    have e1 := fs_one st0 b.l1 a0 s1 h1
+    generalize fsStep st0 b.l1 = st1 at e1 ⊢
+    have a1 : st1.abort = none := by rw [e1]; exact a0
+    have o1 : st1.out = st.out := by rw [e1]; exact o0
+    have c1 : st1.cache = pre ++ [b.l1] := by
+      rw [e1, c0]
+      match pre, hpre, hlen with
+      | [], _, _ => simp
+      | [x], hpre, _ => simp [hpre x (by simp)]
+      | _ :: _ :: _, _, hlen => simp at hlen
+    have hatt : parseTle (st1.cache ++ [b.l2]) = parseTle b.lines := by rw [c1, hl]; simp
+    cases hp : parseTle b.lines with
+    | ok p =>
+      rw [fs_two_ok st1 b.l2 p a1 s2 h2 (hatt.trans hp)]
+      exact ⟨rfl, a1, by simp [o1, Except.toOption]⟩
+    | error e =>
+      rw [fs_two_err st1 b.l2 e a1 s2 h2 (hatt.trans hp) (hv e hp)]
+      exact ⟨rfl, a1, by simp [o1, Except.toOption]⟩
+  cases hname : b.name with
+  | none =>
+    have hl : b.lines = [] ++ [b.l1, b.l2] := by simp [Block.lines, hname]
+    rw [show b.lines.foldl fsStep st = [b.l1, b.l2].foldl fsStep st by rw [hl]; rfl]
+    exact tail st [] ha rfl hl hc (by simp) (by simp)
   | some n =>
     obtain ⟨sn, n1, n2⟩ := hn n hname
-    unfold skipped at sn
-    have hl : b.lines = [n, b.l1, b.l2] := by simp [Block.lines, hname]
-    rw [hl] at hv ⊢
-    simp only [List.foldl_cons, List.foldl_nil]
-    have e0 : fsStep st n = { st with cache := [n] } := by
-      unfold fsStep; simp [ha, sn, n1, n2]
-    rw [e0]
-    have e1 : fsStep { st with cache := [n] } b.l1 = { st with cache := [n, b.l1] } := by
-      unfold fsStep; simp [ha, s1, h1]
-    rw [e1]
-    unfold fsStep
-    simp only [ha, Option.isSome_none, Bool.false_eq_true, if_false, s2, h21, h2, if_true, List.cons_append, List.nil_append]
-    cases hp : parseTle [n, b.l1, b.l2] with
-    | ok p => simp [Except.toOption]
-    | error e => simp [hv e hp, Except.toOption]
+    have hl : b.lines = [n] ++ [b.l1, b.l2] := by simp [Block.lines, hname]
+    rw [show b.lines.foldl fsStep st = [b.l1, b.l2].foldl fsStep (fsStep st n) by rw [hl]; rfl,
+      fs_other st n ha sn n1 n2]
+    exact tail { st with cache := [n] } [n] ha rfl hl rfl (by intro x hx; simp at hx; subst hx; exact n1) (by simp)
 
-/-- **a multi-TLE text yields exactly its valid entries** — partial: for every text made of entries whose element
-lines kept their `1 ` / `2 ` prefixes (each may be corrupted anywhere else: digits, length, checksum; with or without
-name line), `from_string` yields, in order, exactly the entries that `Tle(...)` accepts and nothing else. -/
-theorem from_string_yields_valid_entries_partial (blocks : List Block) (hb : ∀ b ∈ blocks, b.Framed) :
+/-- for a text made only of entries whose element lines kept their numbers, the yielded `Tle` objects are exactly,
+name line included, what `Tle(...)` makes of each accepted entry -/
+theorem from_string_framed_exact (blocks : List Block) (hb : ∀ b ∈ blocks, b.Framed) :
     (fromString (blocks.flatMap Block.lines)).out = blocks.filterMap (fun b => (parseTle b.lines).toOption) ∧
     (fromString (blocks.flatMap Block.lines)).abort = none := by
   unfold fromString
@@ -310,7 +564,7 @@ theorem from_string_yields_valid_entries_partial (blocks : List Block) (hb : ∀
     | nil => intro st _ _ ha; simp [ha]
     | cons b bs ih =>
       intro st hall hc ha
-      obtain ⟨c', a', o'⟩ := fs_block st b (hall b (by simp)) hc ha
+      obtain ⟨c', a', o'⟩ := fs_block_framed st b (hall b (by simp)) hc ha
       simp only [List.flatMap_cons, List.foldl_append]
       obtain ⟨r1, r2⟩ := ih (b.lines.foldl fsStep st) (fun x hx => hall x (by simp [hx])) c' a'
       refine ⟨?_, r2⟩
@@ -321,24 +575,37 @@ theorem from_string_yields_valid_entries_partial (blocks : List Block) (hb : ∀
   have := key blocks {} hb rfl rfl
   simpa using this
 
-
 def refL1 : Str := "1 25544U 98067A   08264.51782528 -.00002182  00000-0 -11606-4 0  2927".toList
 def refL2 : Str := "2 25544  51.6416 247.4627 0006703 130.5360 325.0288 15.72125391563537".toList
 def refL2bad : Str := "2 25544  51.6416 247.4627 0006703 130.5360 325.0288 15.72125391563538".toList
+def refL2as1 : Str := "1 25544  51.6416 247.4627 0006703 130.5360 325.0288 15.72125391563537".toList
 
-/-- the hypotheses of `from_string_yields_valid_entries_partial` are met by a named valid entry and by an unnamed
-entry with a wrong checksum -/
-example : (Block.mk (some "ISS (ZARYA)".toList) refL1 refL2).Framed ∧ (Block.mk none refL1 refL2bad).Framed := by
-  refine ⟨⟨by decide, by decide, by decide, by decide, ?_, ?_⟩, ⟨by decide, by decide, by decide, by decide, ?_, ?_⟩⟩
+theorem not_lineOk_of_checksum {l : Str} {c : Nat} (hs : strip l = l) (hc : checksum l = some c)
+    (hne : natStr c ≠ slice l (68, 69)) : ¬ LineOk l := by
+  rintro ⟨_, c', hc', h'⟩
+  rw [hs] at hc' h'
+  rw [hc] at hc'
+  cases hc'
+  exact hne h'
+
+/-- the hypotheses of `from_string_yields_valid_entries` are met by a named valid entry, by an unnamed entry with a
+wrong checksum and by an entry whose second line number was corrupted from 2 to 1 -/
+example : (Block.mk (some "ISS (ZARYA)".toList) refL1 refL2).Shaped ∧ (Block.mk none refL1 refL2bad).Shaped ∧
+    (Block.mk none refL1 refL2as1).Shaped := by
+  refine ⟨⟨by decide, by decide, ?_, Or.inl ⟨by decide, by decide⟩, ?_⟩,
+          ⟨by decide, by decide, ?_, Or.inl ⟨by decide, by decide⟩, ?_⟩,
+          ⟨by decide, by decide, ?_, Or.inr (Or.inr ⟨by decide, by decide, ?_⟩), ?_⟩⟩
   · intro n h; cases h; decide
-  · intro e h
-    have hh : (parseTle (Block.mk (some "ISS (ZARYA)".toList) refL1 refL2).lines).toOption.isSome = true := by decide
+  · intro _ e h
+    have hh : (parseBody [refL1, refL2]).toOption.isSome = true := by decide
     rw [h] at hh; simp [Except.toOption] at hh
   · intro n h; cases h
-  · intro e h
-    have hh : (match parseTle (Block.mk none refL1 refL2bad).lines with
-      | .error e => isValueError e | .ok _ => false) = true := by decide
+  · intro _ e h
+    have hh : (match parseBody [refL1, refL2bad] with | .error e => isValueError e | .ok _ => false) = true := by decide
     rw [h] at hh; exact hh
+  · intro n h; cases h
+  · exact not_lineOk_of_checksum (c := 6) (by decide) (by decide) (by decide)
+  · intro hf; exact absurd hf (by decide)
 
 /-! ## Clause 1 on the reference TLEs of the test-suite (kernel evaluation of the model) -/
 
